@@ -775,32 +775,30 @@ func ruleFMT8(c *Ctx) {
 		}
 		n++
 		p := it.p
-		// the variable holding the asserted *String format
-		var fmtObj types.Object
-		ast.Inspect(fd.Body, func(nd ast.Node) bool {
-			as, ok := nd.(*ast.AssignStmt)
-			if ok && len(as.Lhs) == 2 && len(as.Rhs) == 1 {
-				if ta, ok := as.Rhs[0].(*ast.TypeAssertExpr); ok && strings.HasSuffix(w.Src(ta.Type), "String") {
-					if id, ok := as.Lhs[0].(*ast.Ident); ok {
-						fmtObj = p.TypesInfo.Defs[id]
-					}
-				}
-			}
-			return true
-		})
+		// no path hands an existing string object (the format argument) back
+		// as the result: a variable of type *String, or an element of args
 		raw := containsNode(fd.Body, func(nd ast.Node) bool {
 			r, ok := nd.(*ast.ReturnStmt)
 			if !ok || len(r.Results) == 0 {
 				return false
 			}
-			id, ok := ast.Unparen(r.Results[0]).(*ast.Ident)
-			return ok && fmtObj != nil && p.TypesInfo.Uses[id] == fmtObj
+			e := ast.Unparen(r.Results[0])
+			if ix, ok := e.(*ast.IndexExpr); ok {
+				_ = ix
+				return true // args[i]
+			}
+			id, ok := e.(*ast.Ident)
+			if !ok {
+				return false
+			}
+			v, ok := p.TypesInfo.ObjectOf(id).(*types.Var)
+			return ok && namedIs(v.Type(), w.Root.Types, "String")
 		})
 		calls := containsNode(fd.Body, func(nd ast.Node) bool {
 			call, ok := nd.(*ast.CallExpr)
 			return ok && Callee(p, call) != nil && Callee(p, call).Name() == "Format"
 		})
-		c.check(calls && !raw && fmtObj != nil, "entry/"+it.name, fd, "every format string goes through Format", it.name+" returns the format string unformatted on some path: `%%` stays `%%` and a verb without argument is not reported as %!verb(MISSING)")
+		c.check(calls && !raw, "entry/"+it.name, fd, "every format string goes through Format", it.name+" returns the format string unformatted on some path: `%%` stays `%%` and a verb without argument is not reported as %!verb(MISSING)")
 	}
 	if n < 2 {
 		c.fail("entry/count", nil, "format entry points not found")
